@@ -3,6 +3,7 @@ from __future__ import annotations
 
 from ..core import Violation
 from ..harness import dag
+from ..harness import recshapes as S
 from ..harness.engine import canon, make_context
 
 from streamflow.core.exception import WorkflowExecutionException
@@ -17,23 +18,65 @@ RULE = (
     "reaches an output), 1..3 list-valued inputs, optionally one transformer invocation that raises, and a delay "
     "profile for every DB statement and step body. Oracle: no quiescence before executor.run() returns/raises; at "
     "return every step is terminated with a terminal status; after draining, every step output port ends with a "
-    "termination token; with an injected failure run() raises and nothing is left WAITING/FIREABLE/RUNNING. "
+    "termination token; with an injected failure run() raises and nothing is left WAITING/FIREABLE/RUNNING. Second "
+    "family (enumerated_cases): the deploy/schedule/transfer/execute shapes of the recovery checks (pipelines, scatter/"
+    "gather fans, diamonds) under the dummy or no failure manager with 0..2 jobs failing in the schedule, transfer or "
+    "execute phase while sibling jobs are still waiting for inputs: same oracle. "
     "non-trivial = non-zero delays applied or a fault fired; distinct = distinct loop digests"
 )
 COMPONENTS = {
     "real": ["StreamFlowExecutor", "Transformer.run", "ScatterStep", "GatherStep", "CombinatorStep", "ConditionalStep.run",
-             "Dot/CartesianProductCombinator", "BaseStep.terminate", "Port", "SqliteDatabase"],
+             "Dot/CartesianProductCombinator", "BaseStep.terminate", "Port", "SqliteDatabase", "DeployStep/ScheduleStep/TransferStep/ExecuteStep with DefaultScheduler, DefaultDataManager, LocalConnector (pipeline family)"],
     "stub": ["aiosqlite thread -> FIFO server", "SimTransformer.transform / SimConditional._eval (pure functions with seeded latency and injected raise)"],
 }
 ASSUMPTIONS = [
     "well-formed = acyclic, every input port has a producer or injected tokens followed by termination, scatter/gather nesting matches, every step reaches a workflow output port",
-    "schedule/execute/transfer pipelines and loops are exercised by C15-C19 and C06 rather than by this generator",
+    "loops are exercised by C06; recovery of failed jobs by C16-C19 (here a failure must end the run)",
 ]
 TIERS = {"quick": {"runs": 2500, "budget_s": 50}, "thorough": {"runs": 150000, "budget_s": 420}}
 SIM_KW = {"max_steps": 400_000, "wall_cap": 60.0}
 
 
+def cases(tier):
+    # second family: deploy/schedule/transfer/execute pipelines (the shapes of the recovery checks) without a
+    # recovering failure manager, where a failing job must end the whole run
+    return [{"mode": "pipeline"} for _ in range(500 if tier == "quick" else 30000)]
+
+
+def run_pipeline(sim, params):
+    t = sim.tape
+    shape = S.gen_shape(t)
+    jobs = sorted(S.jobs_of(shape))
+    manager = ("dummy", "none")[t.draw(2, "manager")]
+    faults = {}
+    for _ in range((1, 1, 2, 0)[t.draw(4, "nfailing")]):
+        faults[(S.PHASES[t.draw(3, "phase")], jobs[t.draw(len(jobs), "job")])] = [{"kind": "soft", "lose": []}]
+    res = S.execute(sim, shape, faults, manager=manager if manager != "none" else None)
+    d = S.desc(shape, faults) + f" manager={manager}"
+    if res.status == "deadlock":
+        raise Violation("deadlock", f"pipeline neither completed nor raised (loop quiescent); pending={[(p['task'], p['at'][-2:]) for p in res.deadlock][:6]}; {d}",
+                        signature="deadlock:pipeline")
+    reached = sum(sim.faults.values()) > 0
+    if reached and res.status != "raised":
+        raise Violation("failure_not_reported", f"a job failed without a recovering failure manager but executor.run() returned normally; {d}", signature="failure_not_reported:pipeline")
+    if not reached and res.status != "ok":
+        raise Violation("run_failed", f"executor raised without a fault having fired: errors={sim.errors[:3]}; {d}", signature="run_failed:pipeline")
+    wf = res.wf
+    if not reached:
+        dag.check_all_terminated(wf, "at_return")
+    sim.drain()
+    dag.check_all_terminated(wf, "after_drain", failed=reached)
+    for st in wf.steps.values():
+        if st.status in (Status.WAITING, Status.FIREABLE, Status.RUNNING):
+            raise Violation("step_left_running", f"after the run step {st.name} is {st.status.name}; {d}", signature="step_left_running:pipeline")
+    sim.probe("pipeline." + res.status)
+    sim.run(res.ctx.close())
+    return {"nontrivial": reached or bool(sim.nondefault_delays), "sample": {"mode": "pipeline", "shape": shape, "manager": manager, "faults": [f"{p}:{j}" for p, j in faults], "status": res.status}}
+
+
 def run(sim, params):
+    if params.get("mode") == "pipeline":
+        return run_pipeline(sim, params)
     t = sim.tape
     plan = dag.generate(t, max_nodes=12, allow_fail=True)
     desc = canon(plan.describe())[:1500]
